@@ -728,3 +728,6 @@ PROPS["C09"]["claim"] += (" WITH SERIALISATION FAILURES (Proofs/EndToEnd/History
 PROPS["C05"]["proofs"] = PROPS["C05"]["proofs"] + ["Bmc.Proofs.EndToEnd.HistoryC05"]
 PROPS["C05"]["claim"] += (" HISTORY FORM about the translated code (Proofs/EndToEnd/HistoryC05.lean): generated_history_never_panics — over a whole history of commands run by SendCommand AS TRANSLATED on one session, with ANY bytes delivered "
                           "as replies at any point of any call, no call ends in RF.panic (the translation's rendering of a Go run-time panic): every call returns a completion code or an error.")
+PROPS["C11"]["proofs"] = PROPS["C11"]["proofs"] + ["Bmc.Proofs.EndToEnd.SessionlessHistory"]
+PROPS["C11"]["claim"] += (" SESSION-LESS HISTORY (Proofs/EndToEnd/SessionlessHistory.lean): generated_sessionless_history_results — on a session-less connection threaded through any history by SendCommand AS TRANSLATED, "
+                          "every completion code returned with a nil error comes from a reply delivered during that call that decodes to a message for that call's command.")
